@@ -5,9 +5,12 @@ package main
 import (
 	"fmt"
 	"go/ast"
+	"go/token"
 	"go/types"
 	"sort"
 	"strings"
+
+	"golang.org/x/tools/go/packages"
 )
 
 type x86Oracle struct {
@@ -57,6 +60,12 @@ func ruleT1(c *Ctx) {
 		}
 		info := p.TypesInfo
 		n := 0
+		type numRow struct {
+			keys []ast.Expr
+			val  ast.Expr
+			pos  token.Pos
+		}
+		var rows []numRow
 		for _, sw := range switchesIn(fd.Body) {
 			if !isStringType(tagType(info, sw)) {
 				continue
@@ -70,24 +79,33 @@ func ruleT1(c *Ctx) {
 					c.fail("T1", fmt.Sprintf("%s.%s[%s]", t.pkg, t.fn, keysStr(info, row.Keys)), c.L.Pos(row.Pos), "undecided: clause does not return a value")
 					continue
 				}
-				val, ok := constInt(info, ret.Results[0])
-				for _, k := range row.Keys {
-					name, kok := constStr(info, k)
-					key := fmt.Sprintf("%s.%s[%s]", t.pkg, t.fn, name)
-					if !kok || !ok {
-						c.fail("T1", key, c.L.Pos(k.Pos()), "undecided: non-constant key or value")
-						continue
-					}
-					n++
-					exp, known := o.Registers[name]
-					switch {
-					case !known:
-						c.fail("T1", key, c.L.Pos(k.Pos()), fmt.Sprintf("register name %q is not in the oracle", name))
-					case int64(exp.Num) != val:
-						c.fail("T1", key, c.L.Pos(k.Pos()), fmt.Sprintf("register %s encoded as %d, ISA number is %d", name, val, exp.Num))
-					default:
-						c.ok("T1", key, c.L.Pos(k.Pos()), fmt.Sprintf("%s=%d", name, val))
-					}
+				rows = append(rows, numRow{row.Keys, ret.Results[0], row.Pos})
+			}
+		}
+		// the same table written as a read-only map[string]int the function indexes by the name
+		if len(rows) == 0 {
+			for _, kv := range readOnlyStringTable(c, p, fd) {
+				rows = append(rows, numRow{[]ast.Expr{kv.Key}, kv.Value, kv.Pos()})
+			}
+		}
+		for _, row := range rows {
+			val, ok := constInt(info, row.val)
+			for _, k := range row.keys {
+				name, kok := constStr(info, k)
+				key := fmt.Sprintf("%s.%s[%s]", t.pkg, t.fn, name)
+				if !kok || !ok {
+					c.fail("T1", key, c.L.Pos(k.Pos()), "undecided: non-constant key or value")
+					continue
+				}
+				n++
+				exp, known := o.Registers[name]
+				switch {
+				case !known:
+					c.fail("T1", key, c.L.Pos(k.Pos()), fmt.Sprintf("register name %q is not in the oracle", name))
+				case int64(exp.Num) != val:
+					c.fail("T1", key, c.L.Pos(k.Pos()), fmt.Sprintf("register %s encoded as %d, ISA number is %d", name, val, exp.Num))
+				default:
+					c.ok("T1", key, c.L.Pos(k.Pos()), fmt.Sprintf("%s=%d", name, val))
 				}
 			}
 		}
@@ -410,4 +428,97 @@ func ruleT2(c *Ctx) {
 	}
 	c.analysed["T2_rows_unreachable_from_source_text"] = unreachable
 	c.floor("T2", 100)
+}
+
+// readOnlyStringTable: fd indexes a package-level map[string]T variable that is initialised by
+// a composite literal and never written anywhere in its package; its key/value pairs.
+func readOnlyStringTable(c *Ctx, p *packages.Package, fd *ast.FuncDecl) []*ast.KeyValueExpr {
+	info := p.TypesInfo
+	var tbl *types.Var
+	ast.Inspect(fd.Body, func(n ast.Node) bool {
+		ix, ok := n.(*ast.IndexExpr)
+		if !ok {
+			return true
+		}
+		id, ok := ix.X.(*ast.Ident)
+		if !ok {
+			return true
+		}
+		v, ok := info.Uses[id].(*types.Var)
+		if !ok || v.Parent() != p.Types.Scope() {
+			return true
+		}
+		if m, ok := v.Type().Underlying().(*types.Map); ok && isStringType(m.Key()) {
+			tbl = v
+		}
+		return true
+	})
+	if tbl == nil {
+		return nil
+	}
+	var lit *ast.CompositeLit
+	written := false
+	refersTo := func(e ast.Expr) bool {
+		for {
+			switch x := e.(type) {
+			case *ast.IndexExpr:
+				e = x.X
+				continue
+			case *ast.ParenExpr:
+				e = x.X
+				continue
+			case *ast.Ident:
+				return info.Uses[x] == tbl || info.Defs[x] == tbl
+			}
+			return false
+		}
+	}
+	for _, f := range p.Syntax {
+		ast.Inspect(f, func(n ast.Node) bool {
+			switch x := n.(type) {
+			case *ast.ValueSpec:
+				for i, nm := range x.Names {
+					if info.Defs[nm] == tbl && i < len(x.Values) {
+						if cl, ok := x.Values[i].(*ast.CompositeLit); ok {
+							lit = cl
+						}
+					}
+				}
+			case *ast.AssignStmt:
+				for _, l := range x.Lhs {
+					if refersTo(l) {
+						written = true
+					}
+				}
+			case *ast.IncDecStmt:
+				if refersTo(x.X) {
+					written = true
+				}
+			case *ast.UnaryExpr:
+				if x.Op == token.AND && refersTo(x.X) {
+					written = true
+				}
+			case *ast.CallExpr:
+				// delete / clear / handing the map to another function
+				for _, a := range x.Args {
+					if id, ok := a.(*ast.Ident); ok && info.Uses[id] == tbl {
+						if fid, ok := x.Fun.(*ast.Ident); !ok || fid.Name != "len" {
+							written = true
+						}
+					}
+				}
+			}
+			return true
+		})
+	}
+	if lit == nil || written {
+		return nil
+	}
+	var out []*ast.KeyValueExpr
+	for _, e := range lit.Elts {
+		if kv, ok := e.(*ast.KeyValueExpr); ok {
+			out = append(out, kv)
+		}
+	}
+	return out
 }
